@@ -17,8 +17,12 @@
      QSnapU       list of unrotated segments                                              [hook snap(agg).unrotated]
      QSnapR       list of rotated segments; since the "fix:" commit an unrotated entry whose key is also in the
                   rotated list is dropped (Dedup = TRUE); before it both were searched (Dedup = FALSE) [hook snap(agg).rotated]
-     QSearch      every listed entry is searched; an entry from the unrotated list whose segment has meanwhile left
-                  the unrotated info is read through the rotated metadata (GetSSRsFromQSR)
+     QCheck       for the entries taken from the unrotated list the search decides whether the segment is (still)
+                  unrotated (IsSegKeyUnrotated in GetSSRsFromQSR)                          [hook search.unrotated]
+     QSearch      every listed entry is searched.  An entry that QCheck found unrotated is read from the unrotated
+                  info; if the segment has left it in between the read finds nothing, and - since the "fix:" commit
+                  (Recheck = TRUE) - the search then reads it through the rotated metadata; before, the segment was
+                  silently skipped (Recheck = FALSE).  An entry QCheck found rotated is read through the rotated metadata.
 
    The order "RotMeta before RotRemove" means a segment is never in neither list (no loss) but is briefly in both.  *)
 EXTENDS Naturals, Sequences, FiniteSets, TLC
@@ -26,75 +30,87 @@ EXTENDS Naturals, Sequences, FiniteSets, TLC
 CONSTANTS MaxEvents,   \* total events that may be ingested
           MaxFlush,    \* block flushes (explicit ones; a rotation's implicit flush not counted)
           MaxRot,      \* rotations
-          Dedup        \* BOOLEAN: does the query drop unrotated entries that are also listed as rotated
+          Dedup,       \* BOOLEAN: does the query drop unrotated entries that are also listed as rotated
+          Recheck      \* BOOLEAN: does an empty unrotated read of a meanwhile-rotated segment fall back to the rotated metadata
 
 VARIABLES nextId,      \* next event id (events are 1..nextId-1)
           wip,         \* set of event ids in the in-memory block
           segs,        \* sequence of segments: [ev |-> set of searchable event ids, inU |-> BOOLEAN, inR |-> BOOLEAN]
           wpc,         \* writer pc: "idle" | "fvis" | "rmeta" | "rrem"
           nflush, nrot,
-          qpc,         \* "none" | "snapU" | "snapR" | "done"
+          qpc,         \* "none" | "snapU" | "snapR" | "checked" | "done"
           snapU, snapR,\* sets of segment indexes
+          asU,         \* entries of the unrotated list that QCheck found still unrotated
           visAtStart,  \* events searchable when the query took its first snapshot
           result       \* sequence (bag) of event ids returned
-vars == <<nextId, wip, segs, wpc, nflush, nrot, qpc, snapU, snapR, visAtStart, result>>
+vars == <<nextId, wip, segs, wpc, nflush, nrot, qpc, snapU, snapR, asU, visAtStart, result>>
 
 Cur == Len(segs)
 NewSeg == [ev |-> {}, inU |-> FALSE, inR |-> FALSE]
 Searchable == UNION {segs[i].ev : i \in {j \in 1..Len(segs) : segs[j].inU \/ segs[j].inR}}
 
 Init == /\ nextId = 1 /\ wip = {} /\ segs = <<NewSeg>> /\ wpc = "idle" /\ nflush = 0 /\ nrot = 0
-        /\ qpc = "none" /\ snapU = {} /\ snapR = {} /\ visAtStart = {} /\ result = <<>>
+        /\ qpc = "none" /\ snapU = {} /\ snapR = {} /\ asU = {} /\ visAtStart = {} /\ result = <<>>
 
 Ingest(n) == /\ wpc = "idle" /\ nextId + n - 1 <= MaxEvents
              /\ wip' = wip \cup (nextId..(nextId + n - 1)) /\ nextId' = nextId + n
-             /\ UNCHANGED <<segs, wpc, nflush, nrot, qpc, snapU, snapR, visAtStart, result>>
+             /\ UNCHANGED <<segs, wpc, nflush, nrot, qpc, snapU, snapR, asU, visAtStart, result>>
 
 MakeVisible == segs' = [segs EXCEPT ![Cur] = [@ EXCEPT !.ev = @ \cup wip, !.inU = TRUE]]
 
 FlushVis == /\ wpc = "idle" /\ wip # {} /\ nflush < MaxFlush
             /\ MakeVisible /\ wip' = {} /\ wpc' = "fvis" /\ nflush' = nflush + 1
-            /\ UNCHANGED <<nextId, nrot, qpc, snapU, snapR, visAtStart, result>>
+            /\ UNCHANGED <<nextId, nrot, qpc, snapU, snapR, asU, visAtStart, result>>
 FlushEnd == /\ wpc = "fvis" /\ wpc' = "idle"
-            /\ UNCHANGED <<nextId, wip, segs, nflush, nrot, qpc, snapU, snapR, visAtStart, result>>
+            /\ UNCHANGED <<nextId, wip, segs, nflush, nrot, qpc, snapU, snapR, asU, visAtStart, result>>
 
 \* rotation of the current segment (needs at least one block, possibly the one it flushes itself)
 RotMeta == /\ wpc = "idle" /\ nrot < MaxRot /\ (segs[Cur].ev # {} \/ wip # {})
            /\ segs' = [segs EXCEPT ![Cur] = [ev |-> @.ev \cup wip, inU |-> TRUE, inR |-> TRUE]]
            /\ wip' = {} /\ wpc' = "rmeta" /\ nrot' = nrot + 1
-           /\ UNCHANGED <<nextId, nflush, qpc, snapU, snapR, visAtStart, result>>
+           /\ UNCHANGED <<nextId, nflush, qpc, snapU, snapR, asU, visAtStart, result>>
 RotRemove == /\ wpc = "rmeta"
              /\ segs' = [segs EXCEPT ![Cur] = [@ EXCEPT !.inU = FALSE]]
              /\ wpc' = "rrem"
-             /\ UNCHANGED <<nextId, wip, nflush, nrot, qpc, snapU, snapR, visAtStart, result>>
+             /\ UNCHANGED <<nextId, wip, nflush, nrot, qpc, snapU, snapR, asU, visAtStart, result>>
 RotEnd == /\ wpc = "rrem" /\ segs' = Append(segs, NewSeg) /\ wpc' = "idle"
-          /\ UNCHANGED <<nextId, wip, nflush, nrot, qpc, snapU, snapR, visAtStart, result>>
+          /\ UNCHANGED <<nextId, wip, nflush, nrot, qpc, snapU, snapR, asU, visAtStart, result>>
 
 QSnapU == /\ qpc = "none"
           /\ snapU' = {i \in 1..Len(segs) : segs[i].inU}
           /\ visAtStart' = Searchable
           /\ qpc' = "snapU"
-          /\ UNCHANGED <<nextId, wip, segs, wpc, nflush, nrot, snapR, result>>
+          /\ UNCHANGED <<nextId, wip, segs, wpc, nflush, nrot, snapR, asU, result>>
 QSnapR == /\ qpc = "snapU"
           /\ snapR' = {i \in 1..Len(segs) : segs[i].inR}
           /\ qpc' = "snapR"
-          /\ UNCHANGED <<nextId, wip, segs, wpc, nflush, nrot, snapU, visAtStart, result>>
+          /\ UNCHANGED <<nextId, wip, segs, wpc, nflush, nrot, snapU, asU, visAtStart, result>>
 
 RECURSIVE Concat(_)
 Concat(ss) == IF ss = <<>> THEN <<>> ELSE Head(ss) \o Concat(Tail(ss))
 SetToSeq(S) == CHOOSE f \in [1..Cardinality(S) -> S] : \A i, j \in 1..Cardinality(S) : i # j => f[i] # f[j]
-\* what searching segment i returns now: everything searchable in it (it is listed, so it is in U or R)
+UList == IF Dedup THEN snapU \ snapR ELSE snapU
+QCheck == /\ qpc = "snapR"
+          /\ asU' = {i \in UList : segs[i].inU}
+          /\ qpc' = "checked"
+          /\ UNCHANGED <<nextId, wip, segs, wpc, nflush, nrot, snapU, snapR, visAtStart, result>>
+\* what reading segment i returns now
 SegEvents(i) == SetToSeq(segs[i].ev)
-QSearch == /\ qpc = "snapR"
-           /\ LET uList == IF Dedup THEN snapU \ snapR ELSE snapU
-                  entries == SetToSeq(uList) \o SetToSeq(snapR)      \* one search per listed entry
-              IN result' = Concat([k \in 1..Len(entries) |-> SegEvents(entries[k])])
+\* an entry of the unrotated list: read as decided by QCheck
+ReadU(i) == IF i \in asU
+            THEN IF segs[i].inU THEN SegEvents(i)                 \* still in the unrotated info
+                 ELSE IF Recheck THEN SegEvents(i) ELSE <<>>      \* left it after the check: empty read (+ fallback)
+            ELSE SegEvents(i)                                     \* found rotated by QCheck: rotated metadata
+QSearch == /\ qpc = "checked"
+           /\ LET us == SetToSeq(UList)
+                  rs == SetToSeq(snapR)
+              IN result' = Concat([k \in 1..Len(us) |-> ReadU(us[k])]) \o Concat([k \in 1..Len(rs) |-> SegEvents(rs[k])])
            /\ qpc' = "done"
-           /\ UNCHANGED <<nextId, wip, segs, wpc, nflush, nrot, snapU, snapR, visAtStart>>
+           /\ UNCHANGED <<nextId, wip, segs, wpc, nflush, nrot, snapU, snapR, asU, visAtStart>>
 
 Next == \/ \E n \in 1..2 : Ingest(n)
         \/ FlushVis \/ FlushEnd \/ RotMeta \/ RotRemove \/ RotEnd
-        \/ QSnapU \/ QSnapR \/ QSearch
+        \/ QSnapU \/ QSnapR \/ QCheck \/ QSearch
 Spec == Init /\ [][Next]_vars
 -----------------------------------------------------------------------------
 Range(s) == {s[i] : i \in 1..Len(s)}
@@ -106,5 +122,5 @@ NoLoss == qpc = "done" => visAtStart \subseteq Range(result)
 NoInvent == Range(result) \subseteq Searchable
 \* a segment is never in neither list while it has searchable events
 NeverInNeither == \A i \in 1..Len(segs) : segs[i].ev # {} => (segs[i].inU \/ segs[i].inR)
-TypeOK == /\ wpc \in {"idle", "fvis", "rmeta", "rrem"} /\ qpc \in {"none", "snapU", "snapR", "done"}
+TypeOK == /\ wpc \in {"idle", "fvis", "rmeta", "rrem"} /\ qpc \in {"none", "snapU", "snapR", "checked", "done"}
 =============================================================================
